@@ -153,7 +153,7 @@ func (cs *CommissionSchedule) validateComplexity(rules *CommissionScheduleRules)
 // validateNondegenerate detects degenerate steps.
 func (cs *CommissionSchedule) validateNondegenerate(rules *CommissionScheduleRules) error {
 	for i, step := range cs.Rates {
-		if step.Start%rules.RateChangeInterval != 0 {
+		if rules.RateChangeInterval == 0 || step.Start%rules.RateChangeInterval != 0 {
 			return fmt.Errorf("rate step %d start epoch %d not aligned with commission rate change interval %d", i, step.Start, rules.RateChangeInterval)
 		}
 		if i > 0 && step.Start <= cs.Rates[i-1].Start {
@@ -168,7 +168,7 @@ func (cs *CommissionSchedule) validateNondegenerate(rules *CommissionScheduleRul
 	}
 
 	for i, step := range cs.Bounds {
-		if step.Start%rules.RateChangeInterval != 0 {
+		if rules.RateChangeInterval == 0 || step.Start%rules.RateChangeInterval != 0 {
 			return fmt.Errorf("bound step %d start epoch %d not aligned with commission rate change interval %d", i, step.Start, rules.RateChangeInterval)
 		}
 		if i > 0 && step.Start <= cs.Bounds[i-1].Start {
